@@ -70,6 +70,11 @@ CHECKS = {
    "Five scenario families on pair / line worlds whose numbers and schedules are generated: final-hop acceptance and claim around expiry - buffer (every offset -3..+3), forward admission around every CLTV / fee threshold, a silent / last-moment / on-chain-settling downstream peer with generated confirmation delays up to the library's stated maximum, a receiver holding a preimage with a dead upstream peer, and forwards stuck in the holding cell. Checked: nothing is shown claimable or forwarded inside the documented buffers (an upstream failure follows instead); claim_funds succeeds at every height below claim_deadline and the node has failed the payment itself from that height on; the holder commitment is first broadcast inside the documented window (not later, not before the trigger); the forwarder never ends with downstream fulfilled and upstream failed; upstream fail-back after a downstream timeout happens only after ANTI_REORG_DELAY confirmations and early enough for the upstream peer. The thorough tier enumerates all offset combinations (flagged exhaustive for that sub-space). Search, not proof.",
    "Stays inside the library's stated bounds (confirmation within 18 blocks of the due height, no reorgs, constant fees); thresholds that are crate-private constants are restated in the harness and pinned at both sides of each boundary; MPP / intercept / trampoline timeouts are not generated.",
    "DESIGN.md §6 C08"),
+ "C04": ("netsim", "exploration",
+   "model-based stateful property-based testing: a receive-side reference model written from the documented rules runs in lock-step with a real recipient node over generated registrations, HTLC part sequences, ticks, blocks and claim / fail calls; plus a generated bit-flip / mask sweep of the payment-secret verification",
+   "A recipient with 1-3 channels from 1-2 senders; registrations through create_inbound_payment / create_inbound_payment_for_hash / keysend with generated minimum, expiry, min_final_cltv, metadata, re-registration; parts sent through the senders' own send API with generated onion fields, totals, secrets, CLTVs and channels. After every step the model's verdict (fail back with which reason class, hold, PaymentClaimable, PaymentClaimed, fulfil) is compared with the node; the credited amount is compared through channel balances; all-or-nothing (every part fulfilled or none) is checked over the whole history, including across MPP timeouts, the claim deadline and closed channels. The pure part drives the secret / metadata verification with 256 single-bit flips per case (about 16 M sub-evaluations quick). Search, not proof.",
+   "Direct channels only, one HTLC per send call; no restarts, disconnects or async persistence at the recipient (C10 / C09 cover those); phantom and BOLT-12 receives are not generated; constants (fail-back buffer 39, +7200 s expiry grace) are restated in the model; three reachable library debug assertions are labelled, not failed (release behaviour satisfies the property).",
+   "DESIGN.md §6 C04"),
 }
 
 NOT_YET = {
